@@ -289,13 +289,7 @@ func (m Message) Bytes() []byte {
 	s.AddUint16(uint16(len(m.Authority)))
 	s.AddUint16(uint16(len(m.Additional)))
 	for _, v := range m.Question {
-		parts := strings.Split(strings.TrimSuffix(v.Name, "."), ".")
-		for _, p := range parts {
-			s.AddUint8LengthPrefixed(func(s *cryptobyte.Builder) {
-				s.AddBytes([]byte(p))
-			})
-		}
-		s.AddUint8(0)
+		addName(s, v.Name)
 		s.AddUint16(v.Type)
 		s.AddUint16(v.Class)
 	}
@@ -307,16 +301,22 @@ func (m Message) Bytes() []byte {
 	return s.BytesOrPanic()
 }
 
-func (rr RR) Bytes() []byte {
-	s := cryptobyte.NewBuilder(nil)
-	if len(rr.Name) > 0 {
-		for _, p := range strings.Split(rr.Name, ".") {
+// addName appends a domain name: its labels followed by the zero-length root
+// label. A trailing dot is ignored and the root name is a single zero byte.
+func addName(s *cryptobyte.Builder, name string) {
+	if name = strings.TrimSuffix(name, "."); len(name) > 0 {
+		for _, p := range strings.Split(name, ".") {
 			s.AddUint8LengthPrefixed(func(s *cryptobyte.Builder) {
 				s.AddBytes([]byte(p))
 			})
 		}
 	}
 	s.AddUint8(0)
+}
+
+func (rr RR) Bytes() []byte {
+	s := cryptobyte.NewBuilder(nil)
+	addName(s, rr.Name)
 	s.AddUint16(rr.Type)
 	s.AddUint16(rr.Class)
 	s.AddUint32(rr.TTL)
@@ -326,12 +326,7 @@ func (rr RR) Bytes() []byte {
 			s.AddBytes([]byte(data))
 		case string:
 			if rr.Type == 2 || rr.Type == 5 || rr.Type == 12 { // NS, CNAME, PTR
-				for _, p := range strings.Split(data, ".") {
-					s.AddUint8LengthPrefixed(func(s *cryptobyte.Builder) {
-						s.AddBytes([]byte(p))
-					})
-				}
-				s.AddUint8(0)
+				addName(s, data)
 			}
 		case []Option:
 			for _, opt := range data {
@@ -342,14 +337,7 @@ func (rr RR) Bytes() []byte {
 			}
 		case HTTPS:
 			s.AddUint16(data.Priority)
-			if len(data.Target) > 0 {
-				for _, p := range strings.Split(data.Target, ".") {
-					s.AddUint8LengthPrefixed(func(s *cryptobyte.Builder) {
-						s.AddBytes([]byte(p))
-					})
-				}
-			}
-			s.AddUint8(0)
+			addName(s, data.Target)
 			if len(data.ALPN) > 0 {
 				s.AddUint16(1)
 				s.AddUint16LengthPrefixed(func(s *cryptobyte.Builder) {
